@@ -45,7 +45,8 @@ LEAN_KEYWORDS = {'open', 'end', 'at', 'from', 'fun', 'let', 'have', 'show', 'in'
 # sorts -> Lean types (inside a family whose header binds I S K)
 LEAN_TYPE = {'img': 'I', 'se': 'S', 'nat': 'Nat', 'int': 'Int', 'bool': 'Bool', 'K': 'K', 'vec': 'List K', 'mode': 'M',
              'arr': 'A', 'natlist': 'List Nat', 'intlist': 'List Int', 'fld': 'X → K', 'bfld': 'X → Bool',
-             'hist': 'H', 'pimg': 'G', 'str': 'String', 'mat': 'List (List K)', 'bimg': 'B'}
+             'hist': 'H', 'pimg': 'G', 'str': 'String', 'mat': 'List (List K)', 'bimg': 'B',
+             'optK': 'Option K', 'dtype': 'D', 'shp': 'Sh'}
 
 # guard helpers whose calls (as expression statements) are dropped: translator/guards.py extracts them
 GUARD_CALLS = {'_verify_is_integer_type', '_verify_is_floatingpoint_type', '_verify_is_bool', '_verify_is_nonnegative',
@@ -256,6 +257,9 @@ class Tr:
             return self.call(node, env, want)
         if isinstance(node, ast.Subscript):
             return self.subscript(node, env)
+        if isinstance(node, ast.Attribute) and ('const:' + (dotted(node) or '')) in self.fam.prims:
+            p = self.fam.prims['const:' + dotted(node)]
+            return f'P.{p.field}', p.ret
         if isinstance(node, ast.Attribute):
             # attribute reads are primitives of arity 1: `x.size` -> P.size x
             key = '.' + node.attr
@@ -276,6 +280,8 @@ class Tr:
             return txt
         if sort in ('nat', 'int', 'natlit'):
             return f'(decide ({txt} ≠ 0))'
+        if sort == 'K':
+            return f'(decide (({txt} : K) ≠ ofNat 0))'          # truth value of a float: non-zero
         raise self.err(node, f'truth value of sort {sort}')
 
     ARITH = {ast.Add: '+', ast.Sub: '-', ast.Mult: '*', ast.Div: '/'}
@@ -438,6 +444,13 @@ class Tr:
                 and node.args[0].elts and all(isinstance(r, ast.List) for r in node.args[0].elts):
             rows = ['[' + ', '.join(self.E(e, env, 'K')[0] for e in r.elts) + ']' for r in node.args[0].elts]
             return '[' + ', '.join(rows) + ']', 'mat'
+        # np.minimum(array, scalar) pointwise: the smaller of the two (the scalar when it is strictly smaller)
+        if d == 'np.minimum' and len(node.args) == 2 and not [k for k in node.keywords if k.arg != 'out'] and 'K' in self.fam.tparams:
+            a, sa = self._E(node.args[0], env)
+            b, sb = self._E(node.args[1], env)
+            if sa == 'fld' and sb in ('K', 'nat', 'int', 'natlit'):
+                b = self.coerce(b, sb, 'K', node)
+                return f'(fun p => if {b} < ({a} p) then {b} else ({a} p))', 'fld'
         if d == 'tuple' and len(node.args) == 1 and not node.keywords:
             a, sa = self._E(node.args[0], env)
             if sa in ('natlist', 'intlist'):
@@ -513,6 +526,8 @@ class Tr:
                     tg = [n.target]
                 elif isinstance(n, ast.For):
                     tg = [n.target]
+                elif isinstance(n, ast.Expr) and isinstance(n.value, ast.Call):
+                    tg = [kw.value for kw in n.value.keywords if kw.arg == 'out' and isinstance(kw.value, ast.Name)]
                 for t in tg:
                     while isinstance(t, ast.Subscript):
                         t = t.value
@@ -560,6 +575,15 @@ class Tr:
                 return self.S(rest, env, k, ind)                        # docstring
             if isinstance(s.value, ast.Call) and (dotted(s.value.func) or '').split('.')[-1] in GUARD_CALLS:
                 return self.S(rest, env, k, ind)                        # guard helper: translator/guards.py
+            if isinstance(s.value, ast.Call):
+                outs = [kw for kw in s.value.keywords if kw.arg == 'out']
+                if len(outs) == 1 and isinstance(outs[0].value, ast.Name) and outs[0].value.id in env \
+                        and outs[0].value.id not in self.drop:
+                    # `ufunc(a, b, out=x)` as a statement, x a local array: `x = ufunc(a, b)`
+                    call = ast.Call(func=s.value.func, args=s.value.args, keywords=[kw for kw in s.value.keywords if kw.arg != 'out'])
+                    asg = ast.Assign(targets=[ast.Name(id=outs[0].value.id, ctx=ast.Store())], value=call)
+                    ast.copy_location(call, s); ast.copy_location(asg, s); ast.fix_missing_locations(asg)
+                    return self.S([asg] + list(rest), env, k, ind)
             raise self.err(s, 'expression statement outside the subset')
         if isinstance(s, (ast.Pass, ast.Import, ast.ImportFrom)):
             return self.S(rest, env, k, ind)
@@ -619,40 +643,69 @@ class Tr:
                         and not self.exits(s.body + s.orelse):
                     return self.S(rest, env, k, ind)
                 raise self.err(s, 'test of a destination-buffer name guarding value-level code')
-            c = self.cond(s.test, env)
+            # `if x is None:` on an optional parameter: a `match` that rebinds x as a scalar where it is not None
+            nt = self._none_test(s.test, env)
+            if nt is not None:
+                x, positive = nt
+                env_none, env_some = dict(env), dict(env)
+                env_none.pop(x)
+                env_some[x] = 'K'
+                b_then, b_else = (env_none, env_some) if positive else (env_some, env_none)
+                h_none, h_some = f'| none =>', f'| some {lname(x)} =>'
+                heads = (f'(match {lname(x)} with', h_none if positive else h_some, h_some if positive else h_none, ')')
+            else:
+                c = self.cond(s.test, env)
+                b_then, b_else = env, env
+                heads = (None, f'if {c} then', 'else', None)
+
+            def wrap(pad_, a_, b_):
+                out = [pad_ + heads[0]] if heads[0] else []
+                out += [pad_ + heads[1]] + a_ + [pad_ + heads[2]] + b_
+                return out + ([pad_ + heads[3]] if heads[3] else [])
             if self.exits(s.body) or self.exits(s.orelse):
-                a = self.S(list(s.body) + list(rest), env, k, ind + 1)
-                b = self.S(list(s.orelse) + list(rest), env, k, ind + 1)
-                return [pad + f'if {c} then'] + a + [pad + 'else'] + b
+                a = self.S(list(s.body) + list(rest), b_then, k, ind + 1)
+                b = self.S(list(s.orelse) + list(rest), b_else, k, ind + 1)
+                return wrap(pad, a, b)
             inb, ine = self.assigned(s.body), self.assigned(s.orelse)
             merged = sorted(n for n in set(inb) | set(ine) if n in env or (n in inb and n in ine))
             merged = [n for n in merged if n not in self.drop]
             if not merged:
                 raise self.err(s, '`if` without effect on the value-level state')
-            sorts = {}
+            rk = {'nat': 1, 'int': 2, 'K': 3}
+            # pass 1: the sorts with which each branch leaves the merged variables; their join is the sort after the `if`
+            seen = []
 
-            def kk(e, i, merged=merged, sorts=sorts):
-                for n in merged:
-                    if sorts.setdefault(n, e[n]) != e[n]:
-                        rk = {'nat': 1, 'int': 2, 'K': 3}
-                        if sorts[n] in rk and e[n] in rk and n in env:
-                            lo, hi = sorted((sorts[n], e[n]), key=rk.get)
-                            raise SortChange(n, env[n], hi)     # embedded before the enclosing loop, then retried
-                        raise self.err(s, f'variable {n} has sort {sorts[n]} in one branch and {e[n]} in the other')
-                return ['  ' * i + self.tuple_of(merged)]
-            saved = getattr(self, '_inloop', 0)
-            self._inloop_guard = True
-            a = self.S(list(s.body), env, kk, ind + 2)
-            b = self.S(list(s.orelse), env, kk, ind + 2)
+            def probe(e, i):
+                seen.append({n: e[n] for n in merged})
+                return []
+            saved = self.counter
+            self.S(list(s.body), b_then, probe, 0)
+            self.S(list(s.orelse), b_else, probe, 0)
+            self.counter = saved
+            sorts = {}
+            for n in merged:
+                ss = {d[n] for d in seen}
+                if len(ss) == 1:
+                    sorts[n] = ss.pop()
+                elif ss <= set(rk):
+                    sorts[n] = max(ss, key=rk.get)
+                    if getattr(self, '_inloop', 0) and n in env and env[n] != sorts[n]:
+                        raise SortChange(n, env[n], sorts[n])     # embedded before the enclosing loop, then retried
+                else:
+                    raise self.err(s, f'variable {n} leaves the branches with sorts {sorted(ss)}')
+
+            def kk(e, i):
+                parts = [self.coerce(lname(n), e[n], sorts[n], s) for n in merged]
+                return ['  ' * i + (parts[0] if len(parts) == 1 else '(' + ', '.join(parts) + ')')]
+            a = self.S(list(s.body), b_then, kk, ind + 2)
+            b = self.S(list(s.orelse), b_else, kk, ind + 2)
             env2 = dict(env)
             env2.update(sorts)
-            if len(merged) == 1:
-                head = [pad + f'let {lname(merged[0])} :=', pad + f'  if {c} then'] + a + [pad + '  else'] + b
-                return head + self.S(rest, env2, k, ind)
-            v = self.fresh('br')
-            head = [pad + f'let {v} :=', pad + f'  if {c} then'] + a + [pad + '  else'] + b
-            for i, n in enumerate(merged):
-                head.append(pad + f'let {lname(n)} := {self.proj(v, i, len(merged))}')
+            v = lname(merged[0]) if len(merged) == 1 else self.fresh('br')
+            head = [pad + f'let {v} :='] + wrap(pad + '  ', a, b)
+            if len(merged) > 1:
+                for i, n in enumerate(merged):
+                    head.append(pad + f'let {lname(n)} := {self.proj(v, i, len(merged))}')
             return head + self.S(rest, env2, k, ind)
         if isinstance(s, (ast.For, ast.While)):
             # a state variable that enters as an int and leaves as a scalar is embedded before the loop (`res = maxt`)
@@ -669,6 +722,14 @@ class Tr:
                     env1[sc.name] = sc.want
             raise self.err(s, 'sorts of the loop state do not stabilise')
         raise self.err(s, f'statement {type(s).__name__} outside the subset')
+
+    def _none_test(self, test, env):
+        """`x is None` / `x is not None` on an optional scalar -> (x, is_positive)"""
+        if isinstance(test, ast.Compare) and len(test.ops) == 1 and isinstance(test.ops[0], (ast.Is, ast.IsNot)) \
+                and isinstance(test.left, ast.Name) and env.get(test.left.id) == 'optK' \
+                and isinstance(test.comparators[0], ast.Constant) and test.comparators[0].value is None:
+            return test.left.id, isinstance(test.ops[0], ast.Is)
+        return None
 
     def _plumbing_test(self, test):
         names = [n.id for n in ast.walk(test) if isinstance(n, ast.Name)]
@@ -863,6 +924,18 @@ EXTREMA = Family(
         '_morph.close_holes': Prim('close_holes', ['img', 'se'], 'bimg'),
     })
 
+STRETCH = Family(
+    'stretch', ['K', 'X', 'D', 'Sh'],
+    '[Add K] [Sub K] [Mul K] [Div K] [LT K] [DecidableLT K] [LE K] [DecidableLE K] [DecidableEq K]', 'StretchPrims',
+    {
+        '.astype()': Prim('astype', ['fld', 'dtype'], 'fld', drop_kw={'copy'}),
+        'const:np.double': Prim('double', [], 'dtype'),
+        '.min()': Prim('min_of', ['fld'], 'K', doc='`img.min()`'),
+        'np.ptp': Prim('ptp', ['fld'], 'K'),
+        '.shape:fld': Prim('shape', ['fld'], 'shp'),
+        'np.zeros': Prim('zeros', ['shp', 'dtype'], 'fld'),
+    }, extra_params=EMBED)
+
 HISTO = Family(
     'histogram thresholds', ['H', 'G'], '', 'HistPrims',
     {
@@ -909,8 +982,9 @@ TARGETS = [
     Target('morph.py', 'regmax', [('f', 'img'), ('Bc', 'se')], 'bimg', EXTREMA),
     Target('morph.py', 'regmin', [('f', 'img'), ('Bc', 'se')], 'bimg', EXTREMA),
     Target('morph.py', 'close_holes', [('ref', 'img'), ('Bc', 'se')], 'bimg', EXTREMA),
+    Target('stretch.py', 'stretch', [('img', 'fld'), ('arg0', 'optK'), ('arg1', 'optK'), ('dtype', 'dtype')], 'fld', STRETCH),
 ]
-FAMILIES = [MORPH, CONV, THRESH, HISTO, LAPL, RC, SOFT, EXTREMA]
+FAMILIES = [MORPH, CONV, THRESH, HISTO, LAPL, RC, SOFT, EXTREMA, STRETCH]
 
 
 def _find_function(tree, name):
